@@ -85,6 +85,37 @@ def run_case(case, keep=False):
       shutil.rmtree(tmp, ignore_errors=True)
 
 
+def run_normalised(props):
+  """Every analysed file re-printed with ast.unparse (comments, layout and
+
+  line numbers change, behaviour does not): every check must stay silent.
+  """
+  import ast
+  tmp = tempfile.mkdtemp(prefix='fdlstatic-selftest-norm-')
+  out = []
+  try:
+    make_copy(tmp)
+    for dp, _, fns in os.walk(os.path.join(tmp, 'fiddle')):
+      for fn in fns:
+        if fn.endswith('.py') and not fn.endswith('_test.py'):
+          p = os.path.join(dp, fn)
+          with open(p) as f:
+            src = f.read()
+          with open(p, 'w') as f:
+            f.write(ast.unparse(ast.parse(src)) + '\n')
+    for prop in props:
+      env = dict(os.environ, FDLSTATIC_REPO=tmp, FDLSTATIC_NO_EVIDENCE='1')
+      r = subprocess.run(
+          ['/venv/bin/python', '-B', '-m', 'fdlstatic.main', prop, '--repo',
+           tmp, '--no-evidence'], cwd=VERIF, env=env, capture_output=True,
+          text=True, timeout=600)
+      ok = r.returncode == 0 and 'VIOLATION' not in r.stdout
+      out.append((prop, ok, '' if ok else (r.stdout + r.stderr)[-800:]))
+  finally:
+    shutil.rmtree(tmp, ignore_errors=True)
+  return out
+
+
 def _edits(case):
   for e in case['edits']:
     if len(e) == 3:
@@ -100,6 +131,8 @@ def main():
   ap.add_argument('-j', type=int, default=16)
   ap.add_argument('--keep', action='store_true')
   ap.add_argument('--json')
+  ap.add_argument('--normalised', action='store_true',
+                  help='also run every check on an ast.unparse-normalised copy')
   a = ap.parse_args()
   cases = load_cases()
   if a.prop:
@@ -113,6 +146,19 @@ def main():
       print(f'{status:11s} {case["prop"]} {case["expect"]:9s} {case["id"]}')
       if status != 'PASS':
         print('   ' + msg.replace('\n', '\n   '))
+  if a.normalised:
+    props = sorted({c['prop'] for c in load_cases()})
+    if a.prop:
+      props = [a.prop.upper()]
+    for prop, ok, msg in run_normalised(props):
+      print(f'{"PASS" if ok else "FAIL":11s} {prop} silent    normalised-source-copy')
+      if not ok:
+        print('   ' + msg.replace('\n', '\n   '))
+        results.append(({'id': 'normalised', 'prop': prop, 'expect': 'silent'},
+                        'FAIL', msg))
+      else:
+        results.append(({'id': 'normalised', 'prop': prop, 'expect': 'silent'},
+                        'PASS', ''))
   bad = [r for r in results if r[1] != 'PASS']
   n_v = sum(1 for c, s, _ in results if c['expect'] == 'violation')
   n_s = len(results) - n_v
